@@ -20,7 +20,8 @@ INVARIANT ResultRule
 INVARIANT LabellingSound
 CHECK_DEADLOCK FALSE
 '''
-BOUNDARY = [0, 1, 1 << 31, (1 << 32) - 1, 1 << 63, (1 << 64) - 1]
+BOUNDARY = [0, 1, 2, (1 << 31) - 1, 1 << 31, (1 << 32) - 1, (1 << 32) - 2, (1 << 32) - 100, 1 << 32, (1 << 63) - 1, 1 << 63,
+            (1 << 64) - 1, (1 << 64) - 2, (1 << 64) - 100]      # incl. -1 / -2 (AT_FDCWD) / -100 as 32 and 64 bit
 
 
 def decoders():
@@ -32,16 +33,16 @@ def run(ctx):
     ctx.expect_ok(run_tlc('Render_MC', MC_CFG % ('ok', 3 if ctx.quick else 4), ctx.workdir, name='render', timeout=3600))
     pr = Prober(rnd)
     obs, texts = [], {}
-    nprobe = 3 if ctx.quick else 12
+    nprobe = 6 if ctx.quick else 16
     shaped = 0
     for name in decoders():
         for k in range(nprobe):
             S = pr.distinct_words(name, 'start')
             E = [0] + pr.distinct_words(name, 'end')[1:]
-            if k == 1:                       # boundary values where the domain is free
+            if k >= 1:                       # boundary values where the domain is free (one word at a time from k = 2 on)
                 for j in range(4):
-                    if AUDIT[name]['dom'][j] is None:
-                        S[j] = BOUNDARY[(j + rnd.randrange(6)) % 6]
+                    if AUDIT[name]['dom'][j] is None and (k == 1 or j == (k - 2) % 4):
+                        S[j] = rnd.choice(BOUNDARY)
             npaths = [2, 0, 1, 2, 6][k % 5]
             paths = [b'/path%d_%d' % (k, i) for i in range(npaths)]
             o = label(pr, name, S, E, paths, nalt=2 if ctx.quick else 3)
@@ -58,6 +59,8 @@ def run(ctx):
     for oid, clause in rej:
         name = oid.split('#')[0]
         o = by[oid]
+        if o.get('history_dep'):
+            texts[oid] = (texts[oid][0] + '  BUT after %s: %s' % (o['history'], o['text_after_history']),) + texts[oid][1:]
         bad = next((p for p in o['params'] if p['de'] or (p['kind'] == 'num' and (p['eq'] and p['pos'] not in p['eq'] or set(p['ds']) - {p['pos']}))), None)
         ctx.violation('C09/%s@%s' % (clause, name), '%s renders %r from START %s: %s (parameter %s)'
                       % (name, texts[oid][0], [hex(x) for x in texts[oid][1]], clause, bad),
